@@ -532,7 +532,7 @@ def run_check(prop, tier, seed, replay):
                         with open(pth, "w") as f:
                             for js in op_["witnesses"]:
                                 f.write(js + "\n")
-                        script_files.append(("spec-order-witness", pth, c["nobj"]))
+                        script_files.append(("spec-order-witness-%s-%d" % (fam, i), pth, c["nobj"]))
                 st["cfg"] = dict(family=fam, nobj=c["nobj"], caps=c["caps"], ops=ops, menu=menu, variant=VARIANT,
                                  invariants=F["invs"])
                 spec_stats.append(st)
@@ -551,7 +551,7 @@ def run_check(prop, tier, seed, replay):
                     with open(pth, "w") as f:
                         for js in ab[: (60 if tier == "quick" else 600)]:
                             f.write(js + "\n")
-                    script_files.append(("spec-abort", pth, c["nobj"]))
+                    script_files.append(("spec-abort-%s-%d" % (fam, i), pth, c["nobj"]))
                 if st["cex"]:
                     # the specification itself violates an invariant of this family: the call
                     # sequences are replayed on the real code and judged there (DESIGN 5.3)
@@ -559,7 +559,7 @@ def run_check(prop, tier, seed, replay):
                     with open(pth, "w") as f:
                         for _, js in st["cex"][:20]:
                             f.write(js + "\n")
-                    script_files.append(("spec-counterexample", pth, c["nobj"]))
+                    script_files.append(("spec-counterexample-%s-%d" % (fam, i), pth, c["nobj"]))
                     log("spec: TLC reports counterexamples for %s in family %s" % (sorted(set(p for p, _ in st["cex"])), fam))
             # 2. scripts generated by TLC from the specification (simulation mode)
             for i, c in enumerate(FT["sim"]):
@@ -567,7 +567,7 @@ def run_check(prop, tier, seed, replay):
                              simlen=c["simlen"], view=False, constraint="SimStop")
                 scr, info = tlc_simulate("%s_%s_%d" % (fam, tier, i), cfg, c["num"], 40 * c["simlen"], seed, 1800)
                 log("spec: %s simulation nobj=%d: %d scripts of %d calls" % (fam, c["nobj"], info["scripts"], c["simlen"]))
-                script_files.append(("tlc-sim-%s-%d" % (fam, c["nobj"]), scr, c["nobj"]))
+                script_files.append(("tlc-sim-%s-%d-%d" % (fam, c["nobj"], i), scr, c["nobj"]))
             # 3. random histories generated by the harness itself (implementation -> specification)
             dv = T["drive"]
             per_fam = max(1, dv["scripts"] // len(P["fams"]))
